@@ -104,6 +104,24 @@ Proof.
   rewrite Forall_forall in H. specialize (H a Ha Ht). rewrite Hs in H. exact H.
 Qed.
 
+(* the final 'end' action: tallies of the non-withdrawn candidates + residual = the ballot count the count was given *)
+Theorem count_meek_end pr fuel s k : wf_profile_m pr ->
+  exec (@crashed A) fuel (count_cmd A cfg RMeek) (init_state A cfg pr) = Some (s, k) -> k <> Abort ->
+  exists a rest sn, actions s = a :: rest /\ a_tag a = TEnd /\ a_snap a = Some sn /\
+    R (as_votes sn) + match as_nt sn with Some x => R x | None => 0 end = cf_nballots cfg * S.
+Proof.
+  intros Hwf He Hk.
+  assert (Ht: triple est (@crashed A) (fun s0 => s0 = init_state A cfg pr) (count_cmd A cfg RMeek)
+            (EndSnap A S ZL cfg) (fun _ => False) (fun _ => False)).
+  { unfold count_cmd. eapply t_seq with (M := Pre0 A S ZL (T0 pr) (live_ids pr)).
+    - apply t_do. intros s0 ->. apply pre0_init. exact Hwf.
+    - eapply t_seq with (M := EndOK A S ZL cfg (T0 pr)); [cbn [rule_cmd]; apply (meek_triple_end A S ZL cfg (T0 pr) Hmeth)|].
+      apply t_do. intros s0 H. apply (end_snap A S ZL cfg (T0 pr) Hmeth). exact H. }
+  specialize (Ht fuel _ s k eq_refl He). destruct k; try contradiction.
+  unfold EndSnap in Ht. destruct (actions s) as [|a rest]; [contradiction|]. destruct Ht as [Et Hs].
+  destruct (a_snap a) as [sn|] eqn:Es; [|contradiction]. exists a, rest, sn. auto.
+Qed.
+
 (* ---- keep factors in range, nothing negative (arithmetics with exact comparisons and roundings) ---- *)
 Hypothesis Hex : exact A = false.
 Hypothesis Hseats : 0 <= cf_nseats cfg.
